@@ -279,22 +279,29 @@ impl Group for NonceRewrite {
 }
 
 const DIRS: [&str; 6] = ["default-src", "img-src", "script-src", "script-src-elem", "style-src", "style-src-elem"];
-const VALS: [&str; 5] = ["'self'", "'unsafe-inline'", "https://a.test", "data:", "'none'"];
+const VALS: [&str; 9] = ["'self'", "'unsafe-inline'", "https://a.test", "data:", "'none'", "'unsafe-eval'", "'wasm-unsafe-eval'", "'strict-dynamic'", "'sha256-B2yPHKaXnvFWtRChIbabYmUBFZdVfKKXHbWtWidDVF8='"];
 
 fn build_rule(named: &str, undef: &str) -> CspRule {
     use kvarn::csp::{Value, ValueSet};
     let mk = |vals: &str| -> ValueSet {
         let mut vs = ValueSet::empty();
+        let mut first = true;
         if vals != "-" {
             for v in vals.split(';') {
                 let s = String::from_utf8(unhex(v).unwrap()).unwrap();
                 vs = match s.as_str() {
                     "'self'" => vs.push(Value::Same),
                     "'unsafe-inline'" => vs.push(Value::UnsafeInline),
+                    "'none'" if first => ValueSet::none(),
                     "'none'" => vs.push(Value::None),
+                    "'unsafe-eval'" => vs.unsafe_eval(),
+                    "'wasm-unsafe-eval'" => vs.wasm_unsafe_eval(),
+                    "'strict-dynamic'" => vs.strict_dynamic(),
+                    _ if s.starts_with('\'') => vs.raw(s),
                     "data:" => vs.scheme(s),
                     _ => vs.uri(s),
                 };
+                first = false;
             }
         }
         vs
